@@ -149,7 +149,7 @@ func (obj *Package) Use(pkg *Package) {
 			if xv := obj.vars[name]; xv != nil && xv.Pkg == obj {
 				continue // the package's own variable shadows the used one
 			}
-			if vv.Export {
+			if vv.Export && Unbound != vv.Val { // not the placeholder of an exported, undefined name
 				obj.vars[name] = vv
 			}
 		}
@@ -237,7 +237,7 @@ func (obj *Package) Unuse(pkg *Package) {
 		obj.vars, obj.funcs, obj.classes = vars, funcs, classes
 		for _, p := range obj.Uses {
 			for name, vv := range p.vars {
-				if _, has := obj.vars[name]; !has && vv.Export {
+				if _, has := obj.vars[name]; !has && vv.Export && Unbound != vv.Val {
 					obj.vars[name] = vv
 				}
 			}
@@ -261,7 +261,7 @@ func (obj *Package) Unuse(pkg *Package) {
 func (obj *Package) inherit(name string) {
 	for _, p := range obj.Uses {
 		if _, has := obj.vars[name]; !has {
-			if vv := p.vars[name]; vv != nil && vv.Export && vv.Pkg == p {
+			if vv := p.vars[name]; vv != nil && vv.Export && vv.Pkg == p && Unbound != vv.Val {
 				obj.vars[name] = vv
 			}
 		}
@@ -522,7 +522,7 @@ func (obj *Package) Export(name string) {
 			vv.Export = true
 			for _, u := range obj.Users {
 				u.mu.Lock()
-				if xv := u.vars[name]; xv == nil {
+				if xv := u.vars[name]; xv == nil && Unbound != vv.Val {
 					u.vars[name] = vv
 				}
 				u.mu.Unlock()
@@ -558,6 +558,11 @@ func (obj *Package) Unexport(name string) {
 	if obj.vars != nil {
 		if vv := obj.vars[name]; vv != nil && vv.Pkg == obj {
 			vv.Export = false
+			if Unbound == vv.Val {
+				// the placeholder of an exported, undefined name has no other purpose
+				delete(obj.vars, name)
+				obj.inherit(name)
+			}
 			for _, u := range obj.Users {
 				u.mu.Lock()
 				if xv := u.vars[name]; xv != nil && obj == xv.Pkg {
